@@ -128,6 +128,10 @@ class Prop:
             out.append(d["case"] if isinstance(d, dict) and "case" in d else d)
         return out
 
+    def case_imports(self, case):
+        """Coq import lines needed to evaluate this case's agree term (default: all of coq_imports)"""
+        return self.coq_imports
+
     def pre_build(self):
         """regenerate translated definitions (Gen/*.v) from REPO before the Coq build; optional"""
         return None
@@ -256,16 +260,11 @@ def build_obligations(prop, thorough=False):
             m = re.match(r"\s*From\s+ONL\s+Require\s+(?:Import|Export)\s+(.*?)\.\s*$", l)
             if m:
                 extra_targets += [x.replace(".", "/") + ".vo" for x in m.group(1).split()]
-        rc, out = sh(["make", "-j16"] + extra_targets, 1500, cwd=COQ) if extra_targets else (0, "")
-        if rc != 0:
-            info["failed"] = list(info["obligations"])
-            info["log_tail"] = out[-4000:]
-            m = re.search(r'File "\./([^"]+)", line (\d+)', out)
-            if m:
-                info["broken_at"] = f"{m.group(1)}:{m.group(2)}"
+        rc0, out = sh(["make", "-k", "-j16"] + extra_targets, 1500, cwd=COQ) if extra_targets else (0, "")
+        if rc0 != 0:
+            info["log_tail"] = out[-3000:]
+            info["model_build_errors"] = re.findall(r'File "\./([^"]+)", line (\d+)', out)[:5]
         for (pf, props_path, names, printed) in per_file:
-            if rc != 0:
-                break
             vo = props_path[:-2] + ".vo"
             target = os.path.relpath(vo, COQ)
             if os.path.exists(vo):
@@ -314,15 +313,24 @@ def run_coq_file(path, timeout=900):
 
 
 def eval_agree(prop, items, workdir, tag="cases"):
-    """items: list of (index, term).  Returns (set of indices whose term is not `true`, errors)."""
+    """items: list of (index, term) or (index, term, imports).  Returns (set of indices whose term is not
+    `true`, errors).  Cases are grouped by the import lines they need, so a part whose model does not
+    compile cannot take the other parts' cases down with it."""
     os.makedirs(workdir, exist_ok=True)
-    shards = [items[i:i + prop.shard] for i in range(0, len(items), prop.shard)]
+    groups = {}
+    for it in items:
+        imps = tuple(it[2]) if len(it) > 2 else tuple(prop.coq_imports)
+        groups.setdefault(imps, []).append((it[0], it[1]))
+    shards = []
+    for imps, its in groups.items():
+        for i in range(0, len(its), prop.shard):
+            shards.append((imps, its[i:i + prop.shard]))
     files = []
-    for k, sh_items in enumerate(shards):
+    for k, (imps, sh_items) in enumerate(shards):
         p = os.path.join(workdir, f"{tag}_{k}.v")
         with open(p, "w") as fh:
             fh.write("From Coq Require Import ZArith QArith List Bool String.\nImport ListNotations.\n")
-            for l in prop.coq_imports:
+            for l in imps:
                 fh.write(l + "\n")
             fh.write("Open Scope Z_scope.\n")
             for (i, term) in sh_items:
@@ -362,7 +370,7 @@ def eval_model(prop, case, workdir):
     p = os.path.join(workdir, "model_out.v")
     with open(p, "w") as fh:
         fh.write("From Coq Require Import ZArith QArith List Bool String.\nImport ListNotations.\n")
-        for l in prop.coq_imports:
+        for l in prop.case_imports(case):
             fh.write(l + "\n")
         fh.write("Open Scope Z_scope.\n")
         fh.write(f"Eval vm_compute in ({term}).\n")
@@ -502,7 +510,7 @@ def replay(prop, path, workdir):
     except Exception:
         term = None
     if term is not None:
-        bad, errors = eval_agree(prop, [(0, term)], workdir, "replay")
+        bad, errors = eval_agree(prop, [(0, term, tuple(prop.case_imports(case)))], workdir, "replay")
         print("model agrees with implementation:", not bad, *errors)
         mo = eval_model(prop, case, workdir)
         if mo:
@@ -560,7 +568,7 @@ def check(prop, args, workdir, t0):
         if t is None:
             skipped += 1
         else:
-            items.append((i, t))
+            items.append((i, t, tuple(prop.case_imports(c))))
     if args.no_build and not os.path.exists(os.path.join(COQ, _props_files(prop)[0][:-2] + ".vo")):
         bad, cerrors = set(), ["model not built"]
     else:
@@ -621,7 +629,7 @@ def check(prop, args, workdir, t0):
                 t = prop.agree_term(cand, oo)
                 if t is None:
                     return False
-                b2, e2 = eval_agree(prop, [(0, t)], os.path.join(workdir, "shr"), "shr")
+                b2, e2 = eval_agree(prop, [(0, t, tuple(prop.case_imports(cand)))], os.path.join(workdir, "shr"), "shr")
                 return bool(b2) and not e2
             if not cerrors and len(bad) < len(items):
                 try:
